@@ -278,7 +278,7 @@ def fit_lemma(modes):
         ctx.no_model = {'lentil.zernike.zernike_fit'}
         c_ = ctx.world.interp.call_function(ctx, func, [opd, mask, PyList(list(modes))], {'normalize': normalize, 'rho': rho, 'theta': theta})
         calls = ctx.__dict__.get('ghost_pinv_calls', [])
-        ctx.oblige('C12::zernike_fit%s one pseudo-inverse' % modes, len(calls) == 1)
+        ctx.oblige('C12::zernike_fit%s one pseudo-inverse' % modes, len(calls) == 1, 'structure')
         if len(calls) != 1:
             return
         Bm, P = calls[0]['input'], calls[0]['out']
